@@ -751,24 +751,7 @@ class Executor:
                     for f in ps.facts[len(base.facts):]:
                         sink.facts.append(z3.Implies(cond, f))
             vals = [(cond, (avals if kind == 'a' else lvals)[nm]) for cond, avals, lvals, ps in paths]
-            if any(not is_num(v) for _, v in vals):
-                if len(vals) == 1:
-                    return vals[0][1]
-                # None on some branches, a record of one class on the others: an optional record
-                nones = [c for c, v in vals if v is None]
-                objs = [(c, v) for c, v in vals if isinstance(v, SObj)]
-                if len(nones) + len(objs) == len(vals) and len(objs) == 1 and nones \
-                        and getattr(objs[0][1], 'none_if', None) is None:
-                    o = objs[0][1]
-                    return SObj(o.cls, dict(o.fields), none_if=z3.simplify(z3.Or(*nones)))
-                arrs = [(c, v) for c, v in vals if isinstance(v, SArr)]
-                if len(nones) + len(arrs) == len(vals) and len(arrs) == 1 and nones:
-                    return SOpt(arrs[0][1], z3.simplify(z3.Or(*nones)))
-                raise Unsupported('non-scalar value merged over the branches of a loop body')
-            for cond, avals, lvals, ps in reversed(paths):
-                v = (avals if kind == 'a' else lvals)[nm]
-                val = v if val is None else self.ite(cond, v, val)
-            return val
+            return self.merge_branch_values(vals)
 
         # trial iteration: structure and in-body obligations at a fresh index
         k0 = fresh('it', 'int')
@@ -794,6 +777,39 @@ class Executor:
         for w in written:
             st.env.pop(w, None)
         return (st, ('fall', None))
+
+    def merge_branch_values(self, vals):
+        """One value from the values [(branch condition, value)] of the paths of an element
+        computation: scalars by if-then-else; None on some branches and one record / array on the
+        others gives an optional record / optional value."""
+        if any(not is_num(v) for _, v in vals):
+            if len(vals) == 1:
+                return vals[0][1]
+            nones = [c for c, v in vals if v is None]
+            objs = [(c, v) for c, v in vals if isinstance(v, SObj)]
+            if len(nones) + len(objs) == len(vals) and len(objs) == 1 and nones \
+                    and getattr(objs[0][1], 'none_if', None) is None:
+                o = objs[0][1]
+                return SObj(o.cls, dict(o.fields), none_if=z3.simplify(z3.Or(*nones)))
+            arrs = [(c, v) for c, v in vals if isinstance(v, SArr)]
+            if len(nones) + len(arrs) == len(vals) and len(arrs) == 1 and nones:
+                return SOpt(arrs[0][1], z3.simplify(z3.Or(*nones)))
+            raise Unsupported('non-scalar value merged over the branches of an element')
+        val = None
+        for cond, v in reversed(vals):
+            val = v if val is None else self.ite(cond, v, val)
+        return val
+
+    def eval_paths_merged(self, node, s2):
+        """Evaluate an expression that may fork (conditional expression): (merged value,
+        [(branch condition, state)])."""
+        npc = len(s2.pc)
+        res = self.eval(node, s2)
+        if any(isinstance(ps, tuple) for ps, _ in res):
+            raise Unsupported('element expression may raise')
+        conds = [z3.And(*ps.pc[npc:]) if len(ps.pc) > npc else z3.BoolVal(True) for ps, _ in res]
+        v = self.merge_branch_values([(c, x) for c, (_, x) in zip(conds, res)])
+        return v, [(c, ps) for c, (ps, _) in zip(conds, res)]
 
     def st_While(self, node, st):
         spec = self.loop_specs.get(node.lineno) or self.loop_specs.get('while')
@@ -1806,17 +1822,19 @@ class Executor:
             def fn(i, it=it):
                 s2 = st.clone()
                 self.assign(gen.target, it.fn(i), s2)
-                v = self.eval1(node.elt, s2)
+                v, branches = self.eval_paths_merged(node.elt, s2)
                 # obligations raised inside the element (callee preconditions) and the facts
-                # learned there (callee postconditions) belong to whoever reads element i
+                # learned there (callee postconditions) belong to whoever reads element i; what
+                # a branch of a conditional element learned holds under that branch's condition
                 sink = SINK[-1] if SINK else st
-                for lab, hyps, f in s2.checks[len(st.checks):]:
-                    if SINK:
-                        sink.lazy_checks.append((lab, list(hyps) + list(sink.guard_stack), f))
-                    else:
-                        sink.checks.append((lab, hyps, f))
-                for f in s2.facts[len(st.facts):]:
-                    sink.facts.append(f)
+                for cond, ps in branches:
+                    for lab, hyps, f in ps.checks[len(st.checks):]:
+                        if SINK:
+                            sink.lazy_checks.append((lab, list(hyps) + list(sink.guard_stack), f))
+                        else:
+                            sink.checks.append((lab, hyps, f))
+                    for f in ps.facts[len(st.facts):]:
+                        sink.facts.append(z3.Implies(cond, f))
                 return v
             # the obligations of the element expression hold for every index: collect them now,
             # at a fresh index, whether or not a postcondition ever reads an element
@@ -1826,9 +1844,10 @@ class Executor:
             n0 = len(t0.checks)
             try:
                 self.assign(gen.target, it.fn(k), t0)
-                self.eval1(node.elt, t0)
-                for lab, hyps, f in t0.checks[n0:]:
-                    st.checks.append((lab, hyps, f))
+                _, branches0 = self.eval_paths_merged(node.elt, t0)
+                for _c, ps in branches0:
+                    for lab, hyps, f in ps.checks[n0:]:
+                        st.checks.append((lab, hyps, f))
             except Unsupported:
                 raise
             return [(st, SSeq(it.length, fn, 'obj'))]
